@@ -6,20 +6,19 @@ tree derived by TLC from the forward / inverse map written in spec/RTransform.tl
 exact value printed by TLC), evaluated by the generic evaluator vf/expr_eval.py.
 
 Tolerance policy (DESIGN.md section 4, "tolerances from conditioning"): an observation ``obs``
-of a quantity whose spec value is f(inputs) is accepted iff
+of a quantity whose spec value is f is accepted iff
 
-    |obs - f| <= max( RTOL * |f| ,  KCOND * eps * S ),   S = sum_i |in_i| * |df/din_i|
+    |obs - f| <= max( RTOL * |f| ,  KCOND * B ),
 
-where the sum runs over the float inputs (point and real parameters) and the partial
-derivatives are finite differences of the SPEC tree in 50-digit arithmetic; for the methods
-the library computes THROUGH the other side of the map (derivatives of the inverse via
-x = inverse(r); everything on InverseRTransform) the rounding of that intermediate value is
-one more input (sensitivity_via).  S * eps is the
-error a backward-stable evaluation may make; it matters only near zeros of f and at strongly
-ill-conditioned points (e.g. the inverse of a map with a flat start), where a purely relative
-test would be a false alarm.  Calibration on the pinned tree (gen/C03-scratch/calib.py, 1.6e5
-observations over all classes, methods, scalar/array, lattice + random): largest
-err/(RTOL*|f|) = 2.6e-5 ... see the module docstrings of c03.py / c04.py for the numbers.
+B = first-order running error bound (eps per operation and per input) of evaluating the SPEC
+tree of f in double precision (``running_error``), plus, for the methods the library computes
+THROUGH the other side of the map (derivatives of the inverse via x = inverse(r); everything on
+InverseRTransform), the error of that intermediate value pushed through df (``error_budget``).
+B is what a straightforward double-precision implementation of the same mathematical
+definition loses; it matters only near zeros of f and at ill-conditioned points (inverse of a
+map with a flat start, 1 - exp(-u) for tiny u), where a purely relative test would be a false
+alarm.  B is computed only when the error exceeds 1e-3 * RTOL * |f|.  Calibration figures are in
+the docstrings of props/c03.py and props/c04.py.
 """
 from __future__ import annotations
 
@@ -37,7 +36,7 @@ from . import expr_eval, tlc
 mp = expr_eval.mp
 EPS = 2.220446049250313e-16
 RTOL = 1e-9
-KCOND = 1e4
+KCOND = 1e3
 
 # specification class name -> (library class, constructor keyword order)
 LIB = {
@@ -156,53 +155,133 @@ def ev_exact(tree, env):
     return expr_eval.evaluate(tree, env, "fraction")
 
 
-def sensitivity(tree, env, names):
-    """S = sum_i |in_i| |df/din_i| by one-sided differences with relative step 1e-25."""
+def running_error(tree, env):
+    """(value, bound): 50-digit value of the tree and a first-order running error bound for
+    evaluating THIS tree in double precision when every leaf carries a relative error eps
+    (standard model fl(a op b) = (a op b)(1 + d), |d| <= eps).  The bound contains both the
+    conditioning with respect to the inputs and the cancellation inside the formula (e.g.
+    1 - exp(-u) for small u), which is what a straightforward implementation of the same
+    mathematical definition loses as well.  None where the tree is singular."""
+    E = mp.mpf(EPS)
+
+    def go(t):
+        op = t["op"]
+        if op == "c":
+            v = mp.mpf(int(t["n"])) / mp.mpf(int(t["d"]))
+            d = int(t["d"])
+            return v, (mp.mpf(0) if d & (d - 1) == 0 else E * abs(v))
+        if op == "v":
+            v = _mpf(env[t["name"]])
+            return v, E * abs(v)
+        if op == "pi":
+            return +mp.pi, E * mp.pi
+        if op in ("neg", "abs"):
+            a, ea = go(t["a"])
+            return (-a if op == "neg" else abs(a)), ea
+        if op in ("add", "sub"):
+            a, ea = go(t["a"])
+            b, eb = go(t["b"])
+            v = a + b if op == "add" else a - b
+            return v, ea + eb + E * abs(v)
+        if op == "mul":
+            a, ea = go(t["a"])
+            b, eb = go(t["b"])
+            v = a * b
+            return v, abs(a) * eb + abs(b) * ea + E * abs(v)
+        if op == "div":
+            a, ea = go(t["a"])
+            b, eb = go(t["b"])
+            v = a / b
+            return v, ea / abs(b) + abs(a) * eb / (b * b) + E * abs(v)
+        if op == "powi":
+            a, ea = go(t["a"])
+            k = int(t["k"])
+            v = a ** k
+            return v, (abs(k) * abs(v / a) * ea if a != 0 else mp.mpf(0)) + abs(k) * E * abs(v)
+        if op == "pow":
+            a, ea = go(t["a"])
+            b, eb = go(t["b"])
+            v = a ** b
+            return v, abs(v) * (abs(b) * ea / abs(a) + abs(mp.log(a)) * eb) + 2 * E * abs(v)
+        if op == "sqrt":
+            a, ea = go(t["a"])
+            v = mp.sqrt(a)
+            return v, ea / (2 * v) + E * v
+        if op == "exp":
+            a, ea = go(t["a"])
+            v = mp.exp(a)
+            return v, v * ea + E * v
+        if op == "log":
+            a, ea = go(t["a"])
+            v = mp.log(a)
+            return v, ea / abs(a) + E * abs(v)
+        raise ValueError(f"running_error: node {op!r}")
+
+    try:
+        return go(tree)
+    except (ZeroDivisionError, ValueError, OverflowError):
+        return None
+
+
+def dtree(tree, env, var):
+    """d tree / d var by a one-sided difference with relative step 1e-25 (50-digit arithmetic)."""
+    h = mp.mpf(10) ** -25
+    x = _mpf(env[var])
+    dx = x * h if x != 0 else h
     f0 = ev(tree, env)
-    if f0 is None:
+    f1 = ev(tree, dict(env, **{var: x + dx}))
+    if f0 is None or f1 is None:
         return None
-    h = mp.mpf(10) ** -25
-    s = mp.mpf(0)
-    for n in names:
-        v = env[n]
-        if v == 0:
-            continue
-        e2 = dict(env)
-        e2[n] = _mpf(v) * (1 + h)
-        f1 = ev(tree, e2)
-        if f1 is None:
+    return (f1 - f0) / dx
+
+
+def error_budget(tree, env, var, route=None):
+    """Absolute error a straightforward double-precision implementation may make for the
+    quantity ``tree``(var): the running error of the spec tree itself, plus - for the methods the
+    library computes through the other side of the map - the running error of the equivalent
+    inverse-function-theorem expression (spec trees a_n / b_n, proved equal by TLC) taken at the
+    intermediate value, and the error of that intermediate value pushed through the derivative.
+
+    route = None                            direct formula in var
+          = ("via", I, alt, avar)           first i = I(var) (e.g. x = G(r)), then alt(avar = i)
+          = ("roundtrip", G, F, alt, avar)  first G(var), then F of that (~ var again), then a formula
+    alt may be None.
+    """
+    re0 = running_error(tree, env)
+    if re0 is None:
+        return None
+    total = re0[1]
+    if route is None:
+        return total
+    df = dtree(tree, env, var)
+    if df is None:
+        return None
+    r1 = running_error(route[1], env)              # the intermediate value and its error
+    di = dtree(route[1], env, var)
+    if r1 is None or di is None or di == 0:
+        return None
+    alt, avar = route[-2], route[-1]
+    if alt is not None:
+        ra = running_error(alt, dict(env, **{avar: r1[0]}))
+        if ra is None:
             return None
-        s += abs(f1 - f0) / h
-    return s
+        total += ra[1]
+    if route[0] == "via":
+        return total + r1[1] * abs(df) / abs(di)
+    if route[0] == "roundtrip":
+        r2 = running_error(route[2], dict(env, x=r1[0]))   # F(G(var)), own error
+        if r2 is None:
+            return None
+        return total + (r1[1] / abs(di) + r2[1]) * abs(df)
+    raise ValueError(route)
 
 
-def sensitivity_via(tree, env, var, inter_tree):
-    """|i| |df/dvar| / |di/dvar|: the error a relative rounding of the intermediate quantity
-    i(var) causes in f, when an implementation computes f(var) through i (e.g. the derivative of
-    the inverse map through x = G(r))."""
-    h = mp.mpf(10) ** -25
-    f0, i0 = ev(tree, env), ev(inter_tree, env)
-    e2 = dict(env)
-    e2[var] = _mpf(env[var]) * (1 + h) if env[var] != 0 else h
-    f1, i1 = ev(tree, e2), ev(inter_tree, e2)
-    if None in (f0, i0, f1, i1) or i1 == i0:
-        return None
-    return abs(i0) * abs(f1 - f0) / abs(i1 - i0)
-
-
-def judge(obs: float, tree, env, names, rtol=RTOL, kcond=KCOND, via=None):
-    """Return (ok, expected(float), err, tol, ratio) for a float observation against a spec tree.
-    ratio = err / tol-of-the-relative-test (calibration figure)."""
+def judge(obs: float, tree, env, var=None, route=None, rtol=RTOL, kcond=KCOND):
+    """Return (ok, expected(float), err, tol, ratio) for a float observation against a spec tree."""
     exp = ev(tree, env)
     if exp is None:
         return None
-    def sens():
-        s = sensitivity(tree, env, names)
-        if s is not None and via is not None:
-            t = sensitivity_via(tree, env, via[0], via[1])
-            s = None if t is None else s + t
-        return s
-    return judge_value(obs, exp, sens, rtol, kcond)
+    return judge_value(obs, exp, (lambda: error_budget(tree, env, var, route)) if var else None, rtol, kcond)
 
 
 def judge_value(obs, exp, sens=None, rtol=RTOL, kcond=KCOND):
@@ -222,7 +301,7 @@ def judge_value(obs, exp, sens=None, rtol=RTOL, kcond=KCOND):
     if sens is not None:
         s = sens()
         if s is not None:
-            tol = max(tol, kcond * EPS * float(s))
+            tol = max(tol, kcond * float(s))
     ok = err <= tol
     return ok, fexp, err, tol, (err / tol if tol > 0 else float("inf"))
 
